@@ -688,3 +688,134 @@ def field_writes(body):
             out.append((t, _sym(body, t.args[0]), _sym(body, t.args[1])))
             out.append((t, _sym(body, t.args[1]), _sym(body, t.args[0])))
     return out
+
+
+INTERIOR = re.compile(r'\b(RefCell|Cell|UnsafeCell|Mutex|RwLock|Atomic\w*|Condvar)\b')
+
+
+def hidden_state_sites(ctx, bodies=None):
+    """uses of state that outlives a call and can be written through a shared reference: `thread_local!` keys and statics whose type has
+    interior mutability (RefCell, Cell, Mutex, RwLock, atomics), and `static mut`. Init-once statics (LazyLock / OnceLock of an immutable
+    value, e.g. a compiled Regex) are not state in this sense. Returns [(body, span, description)]"""
+    out = []
+
+    def walk_json(x, found):
+        if isinstance(x, dict):
+            if 'static' in x and isinstance(x.get('static'), str):
+                found.append(x)
+            for v in x.values():
+                walk_json(v, found)
+        elif isinstance(x, list):
+            for v in x:
+                walk_json(v, found)
+    for b in (bodies if bodies is not None else ctx.facts.bodies):
+        if not b.file().startswith('src/'):
+            continue
+        if '::tests::' in b.path or b.path.startswith('tests::'):
+            continue
+        for t in b.terms('call'):
+            res = t.callee_res() or ''
+            if re.search(r'thread::LocalKey(::<[^>]*>)?::(with|with_borrow|with_borrow_mut|set|get|take|replace|try_with)$', res) or \
+                    re.search(r'thread::local::LocalKey.*::(with|with_borrow|with_borrow_mut|set|get|take|replace|try_with)$', res):
+                fc = (t.raw.get('func', {}).get('c', {}) or {})
+                ga = fc.get('gargs') or ['']
+                key = re.search(r'LocalKey<(.*?)>,', fc.get('ty', '') or '')
+                kty = key.group(1) if key else (ga[0] or '')
+                # with_borrow / with_borrow_mut / set / take / replace exist only on keys of Cell / RefCell
+                if INTERIOR.search(kty) or INTERIOR.search(ga[0] or '') or re.search(r'::(with_borrow|with_borrow_mut|set|take|replace)$', res):
+                    out.append((b, t.span, 'thread-local `%s`' % kty[:80]))
+        for blk in b.blocks:
+            if blk.cleanup:
+                continue
+            found = []
+            walk_json(b.raw['blocks'][blk.idx], found)
+            for c in found:
+                ty = c.get('ty', '') or ''
+                if INTERIOR.search(ty) or ty.startswith('*mut'):
+                    out.append((b, blk.term.span, 'static `%s`: %s' % (c['static'].rsplit('::', 1)[-1], ty[:80])))
+    return out
+
+
+def no_hidden_state(ctx, what, why, bodies=None):
+    """require that the crate keeps no call-to-call state behind a thread_local / interior-mutable static (see hidden_state_sites)"""
+    # positive examples evaluated on every run (the expected count on the tree is zero): the detectors must recognise these spellings
+    for ty_ in ('std::cell::RefCell<std::vec::Vec<u8>>', '&std::sync::atomic::Atomic<usize>', 'std::sync::Mutex<u32>', 'std::cell::Cell<bool>'):
+        if not INTERIOR.search(ty_):
+            raise AnchorMissing('hidden-state detector does not recognise `%s`' % ty_)
+    for ty_ in ('std::sync::LazyLock<regex::Regex>', 'std::sync::OnceLock<std::string::String>', '&str'):
+        if INTERIOR.search(ty_):
+            raise AnchorMissing('hidden-state detector flags the init-once / immutable type `%s`' % ty_)
+    n = 0
+    seen = set()
+    for b, span, desc in hidden_state_sites(ctx, bodies):
+        k = (b.path, desc)
+        if k in seen:
+            continue
+        seen.add(k)
+        n += 1
+        ctx.fail(b, 'hidden-state|' + re.sub(r'[^A-Za-z0-9]+', '_', desc)[:40],
+                 '%s keeps state between calls in a %s (line %d): %s' % (norm_path(b.path), desc, span['line'], why), span)
+    if n == 0:
+        scope = bodies if bodies is not None else [b for b in ctx.facts.bodies if b.file().startswith('src/')]
+        ctx.ok(scope[0] if scope else ctx.facts.bodies[0], '%s: no thread-local or interior-mutable static is used in %d function bodies of %s' % (
+            what, len(scope), ', '.join(sorted({b.file() for b in scope}))[:160]))
+
+    return n
+
+
+
+def py_encoding_agrees(ctx, type_path, variants):
+    """writer / reader agreement of the Python encoding of a unit-variant enum: `IntoPyObject::into_pyobject` writes one string literal per
+    variant, `FromPyObject::extract_bound` reads the same literal back as the same variant (it may accept more spellings). Requires both impls."""
+    from analysis.alts import expand, flatten
+    from analysis.sym import symbolizer, simplify, edge_guards, peel as _peel
+    short = type_path.rsplit('::', 1)[-1]
+    w = [b for b in ctx.facts.bodies if b.kind != 'Closure' and b.path.endswith('::into_pyobject') and type_path in str(b.impl_self)]
+    r = [b for b in ctx.facts.bodies if b.kind != 'Closure' and b.path.endswith('::extract_bound') and type_path in str(b.impl_self)]
+    if len(w) != 1 or len(r) != 1:
+        raise AnchorMissing('IntoPyObject / FromPyObject for %s (found %d / %d)' % (type_path, len(w), len(r)))
+    w, r = w[0], r[0]
+
+    def lit(t):
+        c = _core(t)
+        if c[0] == 'const' and isinstance(c[1], str) and c[1].startswith('"'):
+            return c[1].strip('"')
+        return None
+    wt = {}
+    calls = [t for t in w.calls(r'into_pyobject$')]
+    if len(calls) != 1:
+        raise AnchorMissing('%s::into_pyobject: the conversion of the chosen string' % short)
+    for a_ in flatten(expand(ctx.facts, w, _nosite(_sym(w, calls[0].args[0])))):
+        names = [n for tt, n in a_.variants if _core(tt)[0] == 'arg' and _core(tt)[1] == 1]
+        l_ = lit(a_.value)
+        if len(names) == 1 and len(names[0]) == 1 and l_ is not None:
+            wt[list(names[0])[0]] = l_
+    if set(wt) != set(variants):
+        raise AnchorMissing('%s::into_pyobject: one string literal per variant (found %s)' % (short, sorted(wt)))
+    rt = {}
+    for s_ in r.stmts():
+        if s_.kind != 'assign':
+            continue
+        try:
+            v_ = _peel(simplify(symbolizer(r).rvalue(s_.rv, 0, ())))
+        except Exception:
+            continue
+        if isinstance(v_, tuple) and v_ and v_[0] == 'agg' and v_[1] == 'adt' and v_[2].endswith('Result::Ok') and v_[3]:
+            v_ = _peel(v_[3][0])
+        if not (isinstance(v_, tuple) and v_ and v_[0] == 'agg' and v_[1] == 'adt' and (short + '::') in v_[2] and not v_[3]):
+            continue
+        var = v_[2].rsplit('::', 1)[-1]
+        for g in edge_guards(r):
+            if g.target != s_.bb:
+                continue
+            t_, pol_ = g.atom()
+            c_ = _core(t_)
+            if pol_ is True and c_[0] == 'call' and c_[1].endswith('::eq') and len(c_[2]) == 2 and lit(c_[2][1]) is not None:
+                rt.setdefault(lit(c_[2][1]), set()).add(var)
+    if not rt:
+        raise AnchorMissing('%s::extract_bound: string comparisons leading to the variants' % short)
+    for var, l_ in sorted(wt.items()):
+        ctx.require(rt.get(l_) == {var}, r, 'py-roundtrip|' + short + '|' + var, '%s::%s is written as "%s" and "%s" is read back as %s' % (short, var, l_, l_, var),
+                    '%s::%s is written as "%s", which extract_bound reads as %s: a value that went through Python comes back as another one' % (
+                        short, var, l_, sorted(rt.get(l_) or ['an error'])), w.span)
+    ctx.require(len(set(wt.values())) == len(variants), w, 'py-letters-distinct|' + short, 'the variants of %s are written as different strings' % short, 'written as %s' % wt)
